@@ -22,6 +22,8 @@ package zkmulstar
 
 //@ func (*Proof).Verify
 //@   nopanic[C10]
+//@   modifies nothing
+//@   allocates
 //@   requires group != nil && hash != nil && hash.h != nil && public.C != nil && public.D != nil && public.X != nil && pkok(public.Verifier) && pedok(public.Aux) && (p != nil ==> shaped(p))
 
 //@ func challenge
